@@ -4,6 +4,7 @@ import (
 	"fmt"
 	"go/ast"
 	"go/constant"
+	"go/token"
 	"go/types"
 	"sort"
 	"strings"
@@ -336,9 +337,47 @@ func runC07(r *Run) {
 				okDone = false
 			}
 		}
+		// "validating" looks at the key being removed and at the key it replaced earlier in the epoch (the one
+		// that is in the validator set until the epoch ends)
+		cur, prev := false, false
+		for _, c := range hv.CallsNamed("GetExocoreValidator") {
+			if len(c.Args) != 2 {
+				continue
+			}
+			for _, d := range hv.resolveDefs(c.Args[1], 0) {
+				ast.Inspect(d, func(n ast.Node) bool {
+					if id, isID := n.(*ast.Ident); isID {
+						if isParamOf(hv, id) {
+							cur = true
+						}
+						if resolvesToCallV(hv, id, "GetOperatorPrevConsKeyForChainID") {
+							prev = true
+						}
+					}
+					return true
+				})
+			}
+		}
+		r.check(cur && prev, "C07.R5", "removal|current-and-previous-key", hv.pos(hv.Decl), "the removal hook tests the validator set for the key being removed and for the key it replaced this epoch", "AfterOperatorKeyRemovalInitiated does not look up both the current and the previous key in the validator set: an operator that replaced its active key and opts out in the same epoch has its removal completed at once while the old key is still validating (not resolvable, not slashable)")
 		r.check(okDone && nDone == 1, "C07.R5", "removal|never-active-completes", hv.pos(hv.Decl), "an opt-out of an operator whose key never was in the validator set completes the key removal at once", "the never-validated arm of AfterOperatorKeyRemovalInitiated does not complete the removal for this operator and chain: no opt-out is scheduled that could, so the removal marker and two of the three key indexes stay forever (the indexes disagree, and the operator can never set a key again)")
 	} else {
 		r.bad("C07.R5", "removal|anchor", "-", "anchor", "AfterOperatorKeyRemovalInitiated not found")
+	}
+	// the removal marker is in place before the listeners run: a listener that completes the removal at once
+	// (never-active key) needs it
+	if iv := w.View("x/operator/keeper", "Keeper.InitiateOperatorKeyRemovalForChainID"); iv != nil {
+		var setPos, hookPos token.Pos
+		for _, c := range iv.CallsNamed("Set") {
+			if len(c.Args) == 2 && strings.Contains(exprString(c.Args[0]), "KeyForOperatorKeyRemovalForChainID") && !iv.nestedConditionally(c, iv.Decl.Body) {
+				setPos = c.Pos()
+			}
+		}
+		for _, c := range iv.CallsNamed("AfterOperatorKeyRemovalInitiated") {
+			hookPos = c.Pos()
+		}
+		r.check(setPos.IsValid() && hookPos.IsValid() && setPos < hookPos, "C07.R5", "removal|marker-before-hook", iv.pos(iv.Decl), "the removal marker is stored before the removal hooks run", "InitiateOperatorKeyRemovalForChainID calls the hooks before it stores the removal marker: the immediate completion for a never-active key fails on 'not removing', and the marker written afterwards is never cleared")
+	} else {
+		r.bad("C07.R5", "removal|marker-before-hook", "-", "anchor", "InitiateOperatorKeyRemovalForChainID not found")
 	}
 	// ---- R6
 	for _, nm := range []string{"Keeper.SlashWithInfractionReason"} {
